@@ -8,7 +8,7 @@ from props import _tree
 
 ID = "C03"
 PROPS_MODULE = "H5.Props.C03"
-EXTRA_PROPS_MODULES = ["H5.Props.C03e", "H5.Props.C03d", "H5.Props.C03c", "H5.Props.C03cGuards", "H5.Props.C03b", "H5.Props.C03bReprocess", "H5.Props.C03bDepth", "H5.Props.C03bLoops", "H5.Props.C03bTok"]
+EXTRA_PROPS_MODULES = ["H5.Props.C03f", "H5.Props.C03e", "H5.Props.C03d", "H5.Props.C03c", "H5.Props.C03cGuards", "H5.Props.C03b", "H5.Props.C03bReprocess", "H5.Props.C03bDepth", "H5.Props.C03bLoops", "H5.Props.C03bTok"]
 GEN_MODULES = ["Dispatch", "ParserLiterals", "Constants"]
 CORRESPONDENCE_OPS = ["treev"]
 SOURCES = ["html5lib/html5parser.py", "html5lib/treebuilders/base.py", "html5lib/treebuilders/etree.py",
